@@ -286,7 +286,10 @@ AfterStop == stopped'
 Holds(p) ==
     IF AfterStop /\ p = "C15" THEN ImportedIndexesOK ELSE
     \* the preparation itself does not touch deposits: custody and collateral still hold right after it
-    IF AfterStop /\ p = "C03" THEN (ev'.name = "PrepZeroHeight" => Inv_C03') ELSE
+    IF AfterStop /\ p = "C03" THEN /\ (ev'.name = "PrepZeroHeight" => Inv_C03')
+                                     \* the deposits a fresh chain takes over are the ones in custody
+                                     /\ ((ev'.name = "Genesis" /\ ev'.gen.importok) =>
+                                            SumDeps(S_bind(ev'.gen.imp)) = bal[DEP]) ELSE
     IF AfterStop /\ p = "C14" THEN (ev'.name = "PrepZeroHeight" => Inv_C14') ELSE
     IF AfterStop /\ p = "C09" THEN (ev'.name = "PrepZeroHeight" => Prep_C09) ELSE
     IF AfterStop /\ p \notin {"C19", "C20"} THEN TRUE ELSE
